@@ -100,6 +100,33 @@ def run(tier, seed):
             rep.violation(dict(kind="build", clause="h_algo", has_input=True), "harness h_algo does not compile: " + err[-600:], dict(stderr=err))
             return rep.finish()
         rng = vlib.Rng(seed).fork("c10")
+        # the position shifter handed to numerical kernels: TbfPeriodicShifter::Neighbor = image_shift (= img_shift of the theorem)
+        ibin, ierr = vlib.build_harness("h_index")
+        if ibin:
+            pc = []
+            for d, H in ((1, 2), (1, 3), (1, 4), (2, 2), (2, 3), (3, 2)):
+                lim = 1 << (H - 1)
+                import itertools
+                for t in itertools.product(range(lim), repeat=d):
+                    for code in range(3 ** d):
+                        pc.append("pshift %d %d %d %s" % (d, H, code, " ".join(map(str, t))))
+            for _ in range(300 if tier == "quick" else 20000):
+                d = rng.choice([2, 3, 3, 4]); H = rng.range(2, {2: 12, 3: 9, 4: 6}[d]); lim = 1 << (H - 1)
+                t = [rng.choice([0, lim - 1, rng.below(lim)]) for _ in range(d)]
+                pc.append("pshift %d %d %d %s" % (d, H, rng.below(3 ** d), " ".join(map(str, t))))
+
+            def shift_oracle(c, line):
+                f = c.split(); d, H, code = int(f[1]), int(f[2]), int(f[3]); t = [int(x) for x in f[4:]]
+                o = []; cc = code
+                for _ in range(d): o.append(cc % 3 - 1); cc //= 3
+                o = o[::-1]
+                exp = [(a + b) // (1 << (H - 1)) for a, b in zip(t, o)]
+                got = line.split()
+                if [int(x) for x in got[1:]] != exp: return "shift %s, the image is displaced by %s boxes" % (got[1:], exp)
+                if got[0] != "need=%d" % (1 if any(exp) else 0): return "NeedToShift = %s for displacement %s" % (got[0], exp)
+                return None
+            vlib.differential(rep, ibin, pc, sdir, "pshift", oracle=shift_oracle, clause=lambda c: "pshift:d" + c.split()[1],
+                              nontrivial=lambda c, i: "need=1" in i)
         cases = gen_cases(tier, rng)
 
         def canon(c, line):
